@@ -625,8 +625,8 @@ func (g *Gen) addDefault(p *Schema) {
 		cands := []string{"abc", "ab", "a", "abcd", "foo1z", "12", "Abc", "x@y", "12-ab"}
 		if r.Chance(0.3) {
 			// defaults that are hostile to format strings and Go string literals
-			cands = append([]string{"%Y-%m-%d", "a%20b", "100%", "%d%s", "q\"t", "b\\s", "t`k", "nl\nx"}, cands...)
-			r.Shuffle(8, func(i, j int) { cands[i], cands[j] = cands[j], cands[i] })
+			cands = append([]string{"%Y-%m-%d", "a%20b", "100%", "%d%s", "q\"t", "b\\s", "t`k", "nl\nx", "cr\r\nlf\r\n", "c\rr", "t\tb\n"}, cands...)
+			r.Shuffle(11, func(i, j int) { cands[i], cands[j] = cands[j], cands[i] })
 		}
 		for _, c := range cands {
 			if okString(p, c) {
